@@ -19,7 +19,7 @@ import traceback
 
 from . import common as C
 
-FUEL = 600
+FUEL = 1500
 LO_MAX = 14     # largest expression on which the call-by-name evaluator is also run
 
 HDR = f"""From Coq Require Import List Arith Bool.
@@ -366,7 +366,7 @@ class _Budget(Exception):
     pass
 
 
-def small_normal_form(lang: Lang, t, max_nodes=1200, max_work=150000) -> bool:
+def small_normal_form(lang: Lang, t, max_nodes=1200, max_work=150000, max_depth=400) -> bool:
     work = [0]
 
     def tick():
@@ -401,19 +401,21 @@ def small_normal_form(lang: Lang, t, max_nodes=1200, max_work=150000) -> bool:
             return ('lam', subst(b[1], x, k + 1))
         return b
 
-    def norm(t):
+    def norm(t, d=0):
         tick()
+        if d > max_depth:          # the model's fuel bounds the nesting of evaluation
+            raise _Budget
         if t[0] == 'op' and lang.composite(t[1]):
             k, body = lang.ops[t[1]]["body"]
             u = db(body, k)
             for _ in range(k):
                 u = ('lam', u)
-            return norm(u)
+            return norm(u, d + 1)
         if t[0] == 'app':
-            f, x = norm(t[1]), norm(t[2])
-            return norm(subst(f[1], x, 0)) if f[0] == 'lam' else ('app', f, x)
+            f, x = norm(t[1], d + 1), norm(t[2], d + 1)
+            return norm(subst(f[1], x, 0), d + 1) if f[0] == 'lam' else ('app', f, x)
         if t[0] == 'lam':
-            return ('lam', norm(t[1]))
+            return ('lam', norm(t[1], d + 1))
         return t
 
     def size(t):
